@@ -2,6 +2,8 @@ import LitexProofs.Axi.LiteRun
 import LitexProofs.Axi.LiteSharedData
 import LitexProofs.Axi.LiteCrossbarData
 import LitexProofs.Axi.LiteTimeout
+import LitexProofs.Axi.LiteClosed
+import LitexModel.Axi.LiteSoc
 /-
   C08 — AXI-Lite (and AXI) interconnect keeps grants and routes until every response has returned.
 
@@ -32,6 +34,48 @@ import LitexProofs.Axi.LiteTimeout
   The property as written ("each accepted address reaches the slave chosen by its address … for all schedules") is
   FALSE on the code without `sameSlave`, and the write-data part is false without NoDataBeforeAddr: see the two
   negative witnesses at the end (both are known findings, replayed on the real code by `harness/props/c08.py`).
+-/
+/-
+  INVENTORY of the anchored code (litex/soc/interconnect/axi/axi_lite.py, axi_full.py, axi_common.py, and the SoC glue
+  that instantiates it).  tie: A = exhaustive co-exploration of the reachable product (small shapes), B = seeded lock-step
+  co-simulation (32..128-bit shapes, AXI-legal and arbitrary environments), P = pure function compared on a grid,
+  every instance additionally through the model-independent AxiMonitor (protocol + routing scoreboard).
+
+  class / function (Lite | AXI4 twin)               model                               theorems                                     tie
+  ------------------------------------------------- ----------------------------------- -------------------------------------------- ---------------------------
+  _AXILiteRequestCounter | _AXIRequestCounter       ctrNext, ctrEmpty (8 bit, saturates  axl_counter_inv, axl_counter_bounded,        P exhaustive (256 x 2 x 2, both
+                                                     at 255, `stall` unused as coded)     axl_counter_saturates(_run), saturation      classes) + 258-deep lock-step
+                                                                                          witnesses (fabric level)                     runs inside 3 fabrics
+  AXILiteArbiter | AXIArbiter                       Arb / ArbFabric (+ RoundRobin .ce)   axl_grant_frozen, axl_eventually_served,     A n = 1..3 w/r (exhaustive), B 3->1
+                                                                                          axl_served_within, axl_crossbar_composition  32 bit; RoundRobin P exhaustive n<=4
+  AXILiteDecoder | AXIDecoder                       Dec / DecFabric                      lock part of axl_lock_held_*, negative       A m = 1..3, 2 maps, w/r; B 1->3
+                                                                                          witnesses 1 + 2 (the two open findings)      regions 32 bit
+  AXILiteInterconnectPointToPoint | AXI…PointToPoint P2P (wiring = connect_axi)          axl_p2p_transparent, axl_soc_p2p_*           A joint (Lite + AXI4), B 32 bit
+  AXILiteInterconnectShared | AXIInterconnectShared Shared (timeout None), SharedT       axl_route(_data)_partial, axl_lock_held_,    A 1x2 2x1 2x2 (3x2 2x3 3x3 thorough,
+    (adr/id width = max over masters)                (finite timeout_cycles, with         axl_counter_inv_shared, axl_id_preserved,    sampled), joint w x r; B 3x3 2x3 4x2
+                                                     b-c11's AXI(Lite)Timeout FSM)        axl_timeout_transparent_partial,             16..128 bit, id_width 4, unequal
+                                                                                          axl_closed_shared, axl_end_to_end_shared     master address widths, timeouts
+  AXILiteCrossbar | AXICrossbar                     Crossbar (n decoders x m arbiters,   axl_route(_data)_crossbar_partial,           A as Shared; B 3x3 2x3 4x2 …;
+    (timeout_cycles accepted and ignored)            arbitrary n, m)                      axl_lock_held_crossbar, axl_counter_inv_     3x3 walks
+                                                                                          crossbar, axl_crossbar_composition,
+                                                                                          axl_closed_crossbar, axl_end_to_end_crossbar
+  AXILiteTimeout | AXITimeout                       b-c11's Timeout.Axi (C11 owns it)    C11; here only the composition SharedT       B healthy + firing buses
+  get_check_parameters (both files)                 checkParameters                      axl_check_parameters                         P (equal / unequal width lists)
+  AXI(Lite)Interface.layout_flat, axi_layout_flat,  not separately: they enumerate the   —                                            every signal of every channel is
+    connect_axi (axi_common.py)                      signals the models carry as aValid/                                               driven and compared at port level
+                                                     aAddr/aPay/dValid/dPay/rReady, …                                                  (widths checked against the
+                                                     (`*Pay` = all pass-through fields)                                                constructor arguments)
+  r.last-qualified read release (AXI4), w.last      `gated` (= full && rd), `c.wlast`    axl_read_burst_holds_lock, data theorems     A (AXI4 read letters carry last),
+                                                                                                                                       B bursts 1..4 beats
+  id / dest / user / first / last side-bands        packed in `*Pay` at full width       axl_id_preserved(_run)                       B id_width 4 (after fix 1eff3cf)
+  SoCBusHandler.do_finalize (soc.py; standard       SocAxi.fabric / SocAxi.cfg over      axl_soc_fabric_p2p_iff, axl_soc_fabric_      P fabric class vs SocAxi.fabric,
+    "axi-lite" / "axi": P2P / Shared / Crossbar,     b-c06's busTopology (shared model    decoded, axl_soc_closed_route,               B through real SoCBusHandlers
+    SoCRegion.decoder, timeout, register)            of the one do_finalize statement)    axl_soc_p2p_ignores_region (witness)         (`open socaxi`, model picks the fabric)
+  legal AXI master / slave (environment)            LocalOK / LocalAll (port-local)      axl_closed_* (EnvOK DERIVED, not assumed)    `open localmon`: the harness's AXI-
+                                                                                                                                       legal environments satisfy LocalOK in
+                                                                                                                                       every cycle; finding witnesses do not
+  other classes of the three files (AXILiteSRAM, axi_lite_to_simple, Up/DownConverter, Converter, ClockDomainCrossing,
+  Remapper, AXIBurst2Beat, connect_to_pads): properties C05 / C07 / C09 / C10 / C11, not C08.
 -/
 namespace Litex.C08
 open Litex Litex.Axi.Lite
@@ -292,6 +336,284 @@ theorem axl_route_timeout_partial (c : TCfg) (rd : Bool) (hd : Disjoint c.toCfg)
     Holds (Shared.machine c.toCfg rd) c.toCfg rd true (Shared.init c.toCfg rd) Fifo.empty ins :=
   ⟨(axl_timeout_transparent_partial c rd ins hh).1, axl_route_partial c.toCfg rd hd hn ins⟩
 
+/-! ## Closed system: legal masters + legal slaves + disjoint map ⇒ the guarantee, in every cycle
+
+  The theorems above assume `EnvOK` cycle by cycle against the GLOBAL scoreboard.  Here the assumption is replaced by
+  rules each master / slave can follow from what it sees on ITS OWN port (`LocalOK`, LitexModel/Axi/LiteClosed.lean):
+  a master with unanswered requests (its own count) presents only addresses of the slave of its last accepted address;
+  a slave answers only requests it holds (its own count) and does not accept a 256th.  `EnvOK` is then DERIVED for every
+  schedule (`closed_env`: circular assume/guarantee induction, for any machine satisfying `Holds`). -/
+
+/-- **`axl_closed_shared`** — shared interconnect, every schedule in which masters and slaves follow the local rules:
+    the global assumptions hold in every cycle, hence (no assumption left) the routing guarantee `RouteOK` holds in
+    EVERY cycle of the run. -/
+theorem axl_closed_shared (c : Cfg) (rd : Bool) (hd : Disjoint c) (hn : 0 < c.n) (ins : List DirIn)
+    (hloc : LocalAll (Shared.machine c rd) c rd (Shared.init c rd) (fun _ => {}) (fun _ => 0) ins) :
+    EnvAll (Shared.machine c rd) c rd (Shared.init c rd) Fifo.empty ins ∧
+    Guar (Shared.machine c rd) c rd true (Shared.init c rd) Fifo.empty ins := by
+  have hh := axl_route_partial c rd hd hn ins
+  have he := closed_env _ c rd true hd ins _ _ _ _ (coupled_reset c) hh hloc
+  exact ⟨he, guar_of_holds _ c rd true ins _ _ hh he⟩
+
+/-- **`axl_closed_crossbar`** — the same for the crossbar. -/
+theorem axl_closed_crossbar (c : Cfg) (rd : Bool) (hd : Disjoint c) (hn : 0 < c.n) (ins : List DirIn)
+    (hloc : LocalAll (Crossbar.machine c rd) c rd (Crossbar.init c rd) (fun _ => {}) (fun _ => 0) ins) :
+    EnvAll (Crossbar.machine c rd) c rd (Crossbar.init c rd) Fifo.empty ins ∧
+    Guar (Crossbar.machine c rd) c rd false (Crossbar.init c rd) Fifo.empty ins := by
+  have hh := axl_route_crossbar_partial c rd hd hn ins
+  have he := closed_env _ c rd false hd ins _ _ _ _ (coupled_reset c) hh hloc
+  exact ⟨he, guar_of_holds _ c rd false ins _ _ hh he⟩
+
+/-- **`axl_closed_data_shared`** / **`…_crossbar`** — with the write-data rules as well (`DEnvOK`: NoDataBeforeAddr,
+    address held, B after the data — each clause is about one master's own waiting list or one slave's own burst count):
+    address, response AND data guarantee in every cycle. -/
+theorem axl_closed_data_shared (c : Cfg) (rd : Bool) (hd : Disjoint c) (hn : 0 < c.n) (ins : List DirIn)
+    (hloc : LocalAll (Shared.machine c rd) c rd (Shared.init c rd) (fun _ => {}) (fun _ => 0) ins)
+    (hdat : DEnvAll (Shared.machine c rd) c rd (Shared.init c rd) DGhost.empty ins) :
+    GuarD (Shared.machine c rd) c rd true (Shared.init c rd) Fifo.empty DGhost.empty ins :=
+  guarD_of_holdsD _ c rd true ins _ _ _ (axl_route_data_partial c rd hd hn ins) (axl_closed_shared c rd hd hn ins hloc).1 hdat
+
+theorem axl_closed_data_crossbar (c : Cfg) (rd : Bool) (hd : Disjoint c) (hn : 0 < c.n) (ins : List DirIn)
+    (hloc : LocalAll (Crossbar.machine c rd) c rd (Crossbar.init c rd) (fun _ => {}) (fun _ => 0) ins)
+    (hdat : DEnvAll (Crossbar.machine c rd) c rd (Crossbar.init c rd) DGhost.empty ins) :
+    GuarD (Crossbar.machine c rd) c rd false (Crossbar.init c rd) Fifo.empty DGhost.empty ins :=
+  guarD_of_holdsD _ c rd false ins _ _ _ (axl_route_data_crossbar_partial c rd hd hn ins)
+    (axl_closed_crossbar c rd hd hn ins hloc).1 hdat
+
+/-- **`axl_end_to_end_shared`** — the property as one statement: legal masters + legal slaves + disjoint address map ⇒
+    (1) in every cycle every accepted address reaches exactly its decoded slave and every response returns exactly once
+    to its issuer, in issue order (`Guar`); (2) after the run both counters equal the number of unanswered requests;
+    (3) while any request is unanswered the grant cannot move whatever is driven next, the select points at that slave
+    only, and all unanswered requests are the owner's. -/
+theorem axl_end_to_end_shared (c : Cfg) (rd : Bool) (hd : Disjoint c) (hn : 0 < c.n) (ins : List DirIn)
+    (hloc : LocalAll (Shared.machine c rd) c rd (Shared.init c rd) (fun _ => {}) (fun _ => 0) ins) :
+    Guar (Shared.machine c rd) c rd true (Shared.init c rd) Fifo.empty ins ∧
+    (let r := runSB (Shared.machine c rd) c rd (Shared.init c rd) Fifo.empty ins
+     (r.1.arb.cnt = r.2.total c.m ∧ r.1.dec.cnt = r.2.total c.m) ∧
+     ∀ j, j < c.m → r.2 j ≠ [] →
+      (∀ x, (Shared.next c rd r.1 x).arb.grant = r.1.arb.grant) ∧
+      (∀ x k, k < c.m → Shared.selOf c rd r.1 x k = (k == j)) ∧
+      (∀ a ∈ r.2 j, a = r.1.arb.grant)) := by
+  obtain ⟨he, hg⟩ := axl_closed_shared c rd hd hn ins hloc
+  exact ⟨hg, axl_counter_inv_shared c rd hd hn ins he, axl_lock_held_shared c rd hd hn ins he⟩
+
+/-- **`axl_end_to_end_crossbar`** — the same for the crossbar (one owner per slave). -/
+theorem axl_end_to_end_crossbar (c : Cfg) (rd : Bool) (hd : Disjoint c) (hn : 0 < c.n) (ins : List DirIn)
+    (hloc : LocalAll (Crossbar.machine c rd) c rd (Crossbar.init c rd) (fun _ => {}) (fun _ => 0) ins) :
+    Guar (Crossbar.machine c rd) c rd false (Crossbar.init c rd) Fifo.empty ins ∧
+    (let r := runSB (Crossbar.machine c rd) c rd (Crossbar.init c rd) Fifo.empty ins
+     ((∀ j, j < c.m → (Crossbar.arb r.1 j).cnt = (r.2 j).length) ∧
+      (∀ i, i < c.n → (Crossbar.dcd r.1 i).cnt = r.2.ofMaster c.m i)) ∧
+     ∀ j, j < c.m → r.2 j ≠ [] →
+      (∀ x, (Crossbar.arb (Crossbar.next c rd r.1 x) j).grant = (Crossbar.arb r.1 j).grant) ∧
+      (∀ i, i < c.n → i ∈ r.2 j → ∀ x k, k < c.m → Crossbar.selI c rd r.1 x i k = (k == j)) ∧
+      (∀ a ∈ r.2 j, a = (Crossbar.arb r.1 j).grant)) := by
+  obtain ⟨he, hg⟩ := axl_closed_crossbar c rd hd hn ins hloc
+  exact ⟨hg, axl_counter_inv_crossbar c rd hd hn ins he, axl_lock_held_crossbar c rd hd hn ins he⟩
+
+/-- **`axl_rw_closed`** — complete fabric, both directions at once: the write machine sees only the write signals and
+    the read machine only the read signals (`axl_rw_independent`), so local legality of the write traffic alone gives
+    the write guarantee in every cycle whatever happens on the read channels (legal or not), and vice versa. -/
+theorem axl_rw_closed (c : Cfg) (hd : Disjoint c) (hn : 0 < c.n) (ins : List BusIn) :
+    (LocalAll (Shared.machine c false) c false (Shared.init c false) (fun _ => {}) (fun _ => 0) (ins.map wIn) →
+       Guar (Shared.machine c false) c false true (Shared.init c false) Fifo.empty (ins.map wIn) ∧
+       ((Shared.full c).run ins).w = (Shared.machine c false).run (ins.map wIn)) ∧
+    (LocalAll (Shared.machine c true) c true (Shared.init c true) (fun _ => {}) (fun _ => 0) (ins.map rIn) →
+       Guar (Shared.machine c true) c true true (Shared.init c true) Fifo.empty (ins.map rIn) ∧
+       ((Shared.full c).run ins).r = (Shared.machine c true).run (ins.map rIn)) :=
+  ⟨fun h => ⟨(axl_closed_shared c false hd hn _ h).2, (axl_rw_independent _ _ ins).1⟩,
+   fun h => ⟨(axl_closed_shared c true hd hn _ h).2, (axl_rw_independent _ _ ins).2.1⟩⟩
+
+/-- **`axl_read_burst_holds_lock`** (AXI4 read direction, `c.full`) — a read beat WITHOUT `last` retires nothing: the
+    scoreboard queue of the slave is unchanged by it (so, by `axl_counter_inv_*` / `axl_lock_held_*`, counters, grant and
+    select stay as they are until the beat that carries `last`). -/
+theorem axl_read_burst_holds_lock (c : Cfg) (hf : c.full = true) (g : Fifo) (x : DirIn) (o : DirOut) (j : Nat)
+    (hl : (x.ss j).rLast = false) (hq : sReq x o j = false) : fifoNext c true g x o j = g j := by
+  simp [fifoNext, sDone, Cfg.gated, hf, hl, hq]
+
+/-! ## Counter width and saturation (`Signal(max=256)`, `full = counter == 255`, `stall` computed and unused) -/
+
+/-- **`axl_counter_bounded`** — the 8-bit register never wraps: from a value ≤ 255 every event sequence keeps it ≤ 255. -/
+theorem axl_counter_bounded (evs : List (Bool × Bool)) (c : Nat) (h : c ≤ maxReq - 1) : ctrRun c evs ≤ maxReq - 1 := by
+  induction evs generalizing c with
+  | nil => exact h
+  | cons e es ih => exact ih _ (ctrNext_le c e.1 e.2 h)
+
+/-- **`axl_counter_saturates`** — … because it saturates: `k` requests without a response leave `min k 255`; the
+    256th and later requests are accepted by the fabric (nothing reads `stall`) and NOT counted. -/
+theorem axl_counter_saturates (k : Nat) : ctrRun 0 (List.replicate k (true, false)) = min k (maxReq - 1) := by
+  suffices h : ∀ k c, c ≤ maxReq - 1 → ctrRun c (List.replicate k (true, false)) = min (c + k) (maxReq - 1) by
+    simpa using h k 0 (by decide)
+  intro k
+  induction k with
+  | zero => intro c hc; simp [ctrRun]; omega
+  | succ k ih =>
+    intro c hc
+    simp only [List.replicate_succ, ctrRun]
+    by_cases hlt : c < maxReq - 1
+    · rw [ctrNext_req c hlt, ih (c + 1) (by omega)]; congr 1; omega
+    · have e : c = maxReq - 1 := by omega
+      rw [e, ctrNext_req_full, ih _ (by decide)]
+      simp [maxReq]
+
+/- Full statement (FALSE on the code): `ctrRun 0 evs = outstandingSpec 0 evs` for every sequence in which responses
+   answer requests (first conjunct of `CtrLegal` only).  `axl_counter_inv` is the `_partial` form (≤ 255 outstanding). -/
+
+/-- Negative witness at counter level: 256 requests then 255 responses — the register reads 0 ("idle, unlock") while one
+    request is still unanswered. -/
+example : ctrRun 0 (List.replicate 256 (true, false) ++ List.replicate 255 (false, true)) = 0 ∧
+    outstandingSpec 0 (List.replicate 256 (true, false) ++ List.replicate 255 (false, true)) = 1 := by
+  decide +kernel
+
+/-- 2 masters, 1 slave owning every address. -/
+def cfg21 : Cfg := { n := 2, m := 1, dec := fun _ _ => true, shift := 0, full := false }
+/-- master 0 presents a read address, the slave accepts it. -/
+def xq : DirIn := { ms := fun i => if i = 0 then { aValid := true } else {}, ss := fun _ => { aReady := true } }
+/-- the slave answers, master 0 takes the response. -/
+def xr : DirIn := { ms := fun i => if i = 0 then { rReady := true } else {}, ss := fun _ => { rValid := true, rPay := 7 } }
+/-- master 1 presents an address, nothing else happens. -/
+def xo : DirIn := { ms := fun i => if i = 1 then { aValid := true } else {}, ss := fun _ => {} }
+/-- the slave gives its 256th response; both masters are ready for one. -/
+def xl : DirIn :=
+  { ms := fun i => if i = 1 then { aValid := true, rReady := true } else { rReady := true },
+    ss := fun _ => { rValid := true, rPay := 9 } }
+
+/-- **Negative witness at fabric level** (`axl_counter_saturation_witness`): master 0 gets 256 read addresses accepted
+    (a slave with acceptance capability 256: outside `slaveCap`/`noOverflow`), 255 are answered — both counters read 0
+    while the scoreboard still holds master 0's 256th request; master 1 then takes the grant, and the 256th response is
+    handed to master 1, not to its issuer.  (`_saturation_case` in the harness replays this run on the real netlist in
+    lock step with the model.) -/
+example :
+    let M := Shared.machine cfg21 true
+    let r := runSB M cfg21 true (Shared.init cfg21 true) Fifo.empty
+               (List.replicate 256 xq ++ List.replicate 255 xr ++ [xo])
+    r.1.arb.cnt = 0 ∧ r.1.dec.cnt = 0 ∧ r.1.arb.grant = 1 ∧ r.2 0 = [0] ∧
+    mRsp xl (M.out r.1 xl) 1 = true ∧ mRsp xl (M.out r.1 xl) 0 = false := by
+  decide +kernel
+
+/-- … and the local rules exclude exactly that: 255 accepted requests are inside `LocalAll`, the 256th acceptance is
+    not (`slaveCap`). -/
+example :
+    LocalAll (Shared.machine cfg21 true) cfg21 true (Shared.init cfg21 true) (fun _ => {}) (fun _ => 0)
+      (List.replicate 255 xq) ∧
+    ¬ LocalAll (Shared.machine cfg21 true) cfg21 true (Shared.init cfg21 true) (fun _ => {}) (fun _ => 0)
+      (List.replicate 256 xq) := by
+  decide +kernel
+
+/-! ## Crossbar = decoders × arbiters, for every n and m -/
+
+/-- **`axl_crossbar_composition`** — for ARBITRARY numbers of masters and slaves, every state and every input: the
+    arbiter in front of slave `j` steps and drives its slave exactly as the stand-alone `AXI(Lite)Arbiter`
+    (`ArbFabric`, tied exhaustively on its own) fed with column `j` of the access matrix, and the decoder behind master
+    `i` steps and answers its master exactly as the stand-alone `AXI(Lite)Decoder` (`DecFabric`) fed with row `i`. -/
+theorem axl_crossbar_composition (c : Cfg) (rd : Bool) (s : XbDir) (x : DirIn) :
+    (∀ j, j < c.m →
+      let col : DirIn := { ms := fun i => Crossbar.accMS c rd s x i j, ss := fun _ => x.ss j }
+      Crossbar.arb (Crossbar.next c rd s x) j = (ArbFabric.machine c rd).next (Crossbar.arb s j) col ∧
+      (Crossbar.out c rd s x).toS j = ((ArbFabric.machine c rd).out (Crossbar.arb s j) col).toS 0 ∧
+      ∀ i, Crossbar.accSM s x i j = ((ArbFabric.machine c rd).out (Crossbar.arb s j) col).toM i) ∧
+    (∀ i, i < c.n →
+      let row : DirIn := { ms := fun _ => x.ms i, ss := fun j => Crossbar.accSM s x i j }
+      Crossbar.dcd (Crossbar.next c rd s x) i = (DecFabric.machine c rd).next (Crossbar.dcd s i) row ∧
+      (Crossbar.out c rd s x).toM i = ((DecFabric.machine c rd).out (Crossbar.dcd s i) row).toM 0 ∧
+      ∀ j, Crossbar.accMS c rd s x i j = ((DecFabric.machine c rd).out (Crossbar.dcd s i) row).toS j) := by
+  refine ⟨fun j hj => ⟨Crossbar.arb_next' c rd s x j hj, rfl, fun _ => rfl⟩, fun i hi => ⟨?_, rfl, fun _ => rfl⟩⟩
+  show (Crossbar.next c rd s x).decs.getD i {} = _
+  exact getD_map_range' c.n i hi _ _
+
+/-! ## SoC glue: `SoCBusHandler.do_finalize` for the axi-lite / axi standards -/
+
+/-- **`axl_check_parameters`** — `get_check_parameters`: the constructor accepts exactly the port lists whose data
+    widths are all equal, and uses that width. -/
+theorem axl_check_parameters (w : Nat) (ws : List Nat) :
+    (checkParameters (w :: ws) = some w ↔ ∀ v ∈ ws, v = w) ∧ (checkParameters (w :: ws) ≠ some w → checkParameters (w :: ws) = none) := by
+  have hall : (ws.all (· == w) = true) ↔ ∀ v ∈ ws, v = w := by simp [List.all_eq_true]
+  simp only [checkParameters]
+  by_cases h : ws.all (· == w) = true
+  · rw [if_pos h]
+    exact ⟨⟨fun _ => hall.mp h, fun _ => rfl⟩, fun hne => absurd rfl hne⟩
+  · rw [if_neg h]
+    exact ⟨⟨fun hh => (by cases hh), fun ha => absurd (hall.mpr ha) h⟩, fun _ => rfl⟩
+
+/-- **`axl_soc_fabric_p2p_iff`** — the glue wires point-to-point exactly for one master, one slave, slave region at
+    origin 0. -/
+theorem axl_soc_fabric_p2p_iff (c : SocAxi) : c.fabric = .p2p ↔ c.n = 1 ∧ c.m = 1 ∧ c.origin0 = 0 := by
+  have key : c.topology = .p2p ↔ c.n = 1 ∧ c.m = 1 ∧ c.origin0 = 0 := by
+    unfold SocAxi.topology Wishbone.busTopology
+    by_cases h0 : c.n = 0 ∨ c.m = 0
+    · rw [if_pos h0]
+      constructor
+      · intro h; cases h
+      · intro ⟨_, _, _⟩; omega
+    · rw [if_neg h0]
+      by_cases h1 : c.n = 1 ∧ c.m = 1 ∧ c.origin0 = 0
+      · rw [if_pos h1]; exact ⟨fun _ => h1, fun _ => rfl⟩
+      · rw [if_neg h1]
+        constructor
+        · intro h; cases hk : c.kind <;> rw [hk] at h <;> cases h
+        · intro h; exact absurd h h1
+  rw [← key]
+  unfold SocAxi.fabric
+  cases c.topology with
+  | none => simp
+  | p2p => simp
+  | shared => cases c.timeout <;> simp
+  | crossbar => simp
+
+/-- **`axl_soc_fabric_decoded`** — otherwise (some master, some slave) it builds the interconnect class named by
+    `bus_interconnect` over ALL masters and ALL slave regions, with `SoCRegion.decoder` predicates on the word address
+    and the bus data width; the shared interconnect gets the SoC's `timeout`, the crossbar ignores it. -/
+theorem axl_soc_fabric_decoded (c : SocAxi) (hn : c.n ≠ 0) (hm : c.m ≠ 0) (hp : ¬ (c.n = 1 ∧ c.m = 1 ∧ c.origin0 = 0)) :
+    (c.kind = .shared → c.timeout = none → c.fabric = .shared c.cfg) ∧
+    (c.kind = .shared → ∀ t, c.timeout = some t → c.fabric = .sharedT { toCfg := c.cfg, t := t, dw := c.dw }) ∧
+    (c.kind = .crossbar → c.fabric = .xbar c.cfg) ∧
+    c.cfg.n = c.n ∧ c.cfg.m = c.regions.length ∧ c.cfg.full = c.full := by
+  have h0 : ¬ (c.n = 0 ∨ c.m = 0) := by omega
+  have ht : c.topology = match c.kind with | .shared => .shared | .crossbar => .crossbar := by
+    unfold SocAxi.topology Wishbone.busTopology
+    rw [if_neg h0, if_neg hp]
+    cases c.kind <;> rfl
+  refine ⟨fun hk hto => ?_, fun hk t hto => ?_, fun hk => ?_, rfl, rfl, rfl⟩ <;>
+    (unfold SocAxi.fabric; rw [ht, hk]) <;> simp [hto]
+
+/-- **`axl_soc_closed_route`** — end to end through the glue: a SoC bus with at least one master whose slave regions
+    decode disjointly (`Disjoint c.cfg`: discharged for every map `check_regions_overlap` accepts by b-c06/b-c13,
+    `soc_accepted_disjoint_decoders_partial`), not in the point-to-point case, legal masters and slaves ⇒ the fabric
+    `do_finalize` builds routes every accepted address to its region's slave and returns every response to its issuer,
+    in every cycle (shared without timeout and crossbar; with a timeout: `axl_timeout_transparent_partial`). -/
+theorem axl_soc_closed_route (c : SocAxi) (rd : Bool) (hn : c.n ≠ 0) (hd : Disjoint c.cfg) (ins : List DirIn) :
+    (c.fabric = .shared c.cfg →
+      LocalAll (Shared.machine c.cfg rd) c.cfg rd (Shared.init c.cfg rd) (fun _ => {}) (fun _ => 0) ins →
+      Guar (Shared.machine c.cfg rd) c.cfg rd true (Shared.init c.cfg rd) Fifo.empty ins) ∧
+    (c.fabric = .xbar c.cfg →
+      LocalAll (Crossbar.machine c.cfg rd) c.cfg rd (Crossbar.init c.cfg rd) (fun _ => {}) (fun _ => 0) ins →
+      Guar (Crossbar.machine c.cfg rd) c.cfg rd false (Crossbar.init c.cfg rd) Fifo.empty ins) :=
+  ⟨fun _ h => (axl_closed_shared c.cfg rd hd (Nat.pos_of_ne_zero hn) ins h).2,
+   fun _ h => (axl_closed_crossbar c.cfg rd hd (Nat.pos_of_ne_zero hn) ins h).2⟩
+
+/- Full statement for the point-to-point case (FALSE): "an address reaches the slave only if it lies in the slave's
+   region".  `InterconnectPointToPoint` has no decoder (b-c06's open finding C06-p2p-partial-region-origin0; the statement
+   in `do_finalize` is shared by all three bus standards). -/
+
+/-- 1 master, 1 slave with a 4 KiB region at origin 0 on a 32-bit axi-lite bus. -/
+def socP : SocAxi := { n := 1, regions := [(0, 0x1000)], kind := .shared, full := false, timeout := some 1000000,
+                       dw := 32, aw := 32 }
+
+/-- **`axl_soc_p2p_ignores_region`** (negative witness): the glue wires `socP` point-to-point; address 0x2000 does not
+    belong to the slave's region (`SocAxi.cfg` decoder) and is presented to the slave all the same. -/
+example :
+    socP.fabricName = "p2p" ∧ routes socP.cfg 0 0x2000 = false ∧ routes socP.cfg 0 0xffc = true ∧
+    ((P2P.machine.out () { ms := fun _ => { aValid := true, aAddr := 0x2000 }, ss := fun _ => {} }).toS 0).aValid = true := by
+  refine ⟨by decide, by decide, by decide, rfl⟩
+
+/-- Non-vacuity of `axl_soc_fabric_decoded` / `axl_soc_closed_route`: 2 masters, regions at 0x1000_0000 and 0x4000_0000. -/
+def socS : SocAxi := { n := 2, regions := [(0x10000000, 0x1000), (0x40000000, 0x10000)], kind := .crossbar, full := true,
+                       timeout := some 1000000, dw := 32, aw := 32 }
+
+example : socS.fabricName = "xbar" ∧ routes socS.cfg 0 0x10000ffc = true ∧ routes socS.cfg 1 0x10000ffc = false ∧
+    routes socS.cfg 1 0x4000fff0 = true ∧ routes socS.cfg 0 0x20000000 = false ∧ routes socS.cfg 1 0x20000000 = false := by
+  decide
+
 /-! ## Concrete instances: the hypotheses are satisfiable, and the excluded regions really fail -/
 
 /-- 2 masters, 2 slaves, 8-bit data, slave `j` owns the byte addresses with `a >> 1 = j` (harness map "cover"). -/
@@ -535,6 +857,24 @@ example :
   intro h
   have := h.2.1
   revert this
+  decide
+
+
+/-! ### Closed system: non-vacuity and the excluded region -/
+
+/-- Non-vacuity of `axl_closed_shared` / `axl_closed_crossbar` / `axl_end_to_end_*`: the request/response run `[xa, xb]`
+    follows the local rules (and so does the early-data write `[xf, xg]`). -/
+example :
+    LocalAll (Shared.machine cfg22 false) cfg22 false (Shared.init cfg22 false) (fun _ => {}) (fun _ => 0) [xa, xb] ∧
+    LocalAll (Crossbar.machine cfg22 true) cfg22 true (Crossbar.init cfg22 true) (fun _ => {}) (fun _ => 0) [xa, xb] ∧
+    LocalAll (Shared.machine cfg22 false) cfg22 false (Shared.init cfg22 false) (fun _ => {}) (fun _ => 0) [xf, xg] := by
+  decide
+
+/-- The run of negative witness 1 (second address to another slave while the first is unanswered) breaks the MASTER's
+    local rule in its second cycle — the master itself can tell (its own `pend = 1`, `last = 0`). -/
+example :
+    ¬ LocalAll (Shared.machine cfg22 false) cfg22 false (Shared.init cfg22 false) (fun _ => {}) (fun _ => 0) [xc, xd] ∧
+    LocalAll (Shared.machine cfg22 false) cfg22 false (Shared.init cfg22 false) (fun _ => {}) (fun _ => 0) [xc] := by
   decide
 
 end Litex.C08
